@@ -28,6 +28,7 @@ fn trace_take() -> Vec<&'static str> {
     TRACE.with(|t| std::mem::take(&mut *t.borrow_mut()))
 }
 
+#[derive(Clone)]
 pub struct Probe(pub Vec<u8>);
 
 impl Payload for Probe {
@@ -109,7 +110,7 @@ pub fn run_token<B: Backend>(acc: &mut Acc, c: &TokCase, filter: Option<&MutId>)
     let name = B::NAME;
     macro_rules! body {
         ($P:ty, $sealkey:expr, $unsealkey:expr, $keyvars:expr) => {{
-            let b_ok = c02::build::<B, $P, Probe>(c, &$sealkey, Probe(m_ok.clone()), m_ok.clone());
+            let b_ok = c02::build_with_room::<B, $P, Probe>(c, &$sealkey, Probe(m_ok.clone()), m_ok.clone());
             let b_bad = c02::build::<B, $P, Probe>(c, &$sealkey, Probe(m_bad.clone()), m_bad.clone());
             let (b_ok, b_bad) = match (b_ok, b_bad) {
                 (Ok(a), Ok(b)) => (a, b),
@@ -139,9 +140,10 @@ pub fn run_token<B: Backend>(acc: &mut Acc, c: &TokCase, filter: Option<&MutId>)
             }
             let prefix = if c.public { 0 } else { B::VER.local_nonce_len() };
             let suffix = if c.public { B::VER.sig_len() } else { B::VER.local_tag_len() };
+            let modulus: Option<Vec<u8>> = if c.public && B::VER == crate::refmodel::Ver::V1 { c02::rsa_modulus::<B>(&c.key) } else { None };
             let parts = |b: &c02::Built| -> Vec<faults::TokenMutant> {
                 faults::token_mutants(
-                    &TokenParts { payload: &b.payload, footer: &b.footer, assertion: &b.assertion, prefix, suffix },
+                    &TokenParts { payload: &b.payload, footer: &b.footer, assertion: &b.assertion, prefix, suffix, modulus: modulus.as_deref() },
                     B::VER.has_assertion(),
                     hash_of(c),
                     full_limit,
